@@ -89,7 +89,7 @@ def cli_gen(profile, n_quick, n_thorough, relative=False):
             if relative and rng.random() < 0.8:
                 c['cli_relative'] = rng.choice(['srcdir', 'parent'])
             if rng.random() < 0.5:
-                c['preseed_out'] = rng.choice([1, 300, 70000])
+                c['preseed_out'] = rng.choice([1, 300, 3000])
             # command-line edge values of the window options
             r = rng.random()
             if r < 0.35:
